@@ -56,12 +56,45 @@ HCH   .fill x0023
 .end
 ";
 thread_local! { static HANDLER_PRINTS: std::cell::Cell<bool> = const { std::cell::Cell::new(false) }; }
+/// A program that calls PUTS and uses R0 and R1 afterwards: an interrupt anywhere inside the service routine
+/// (its prologue, its loop, the nested PUTC, its epilogue) must leave the caller's registers alone.
+const T_PROG_PUTS: &str = "
+.orig x3000
+      LD R6, USP
+      AND R1, R1, #0
+      ADD R1, R1, #7
+      ADD R2, R1, #3
+      LEA R0, MSG
+      PUTS
+      ADD R3, R0, #0
+      ADD R4, R1, #0
+      ST R3, CNT
+      HALT
+USP   .fill xFD00
+MSG   .stringz \"Hi\"
+CNT   .blkw 1
+.end
+";
+thread_local! { static PROG_PUTS: std::cell::Cell<bool> = const { std::cell::Cell::new(false) }; }
+/// Number of instruction boundaries of the uninterrupted run of a program (silent run, nothing logged).
+fn boundaries_of(src: &str) -> u32 {
+    let mut sim = lc3_ensemble::sim::Simulator::new(known(0, false, false));
+    sim.load_obj_file(&assemble_src(src)).unwrap();
+    sim.device_handler.set_display(lc3_ensemble::sim::device::BufferedDisplay::default());
+    let mut n = 0u32;
+    while n < 2000 {
+        if sim.pc >= 0x3000 && sim.mem[sim.pc].get() == 0xF025 { break; }
+        if sim.step_in().is_err() { break; }
+        n += 1;
+    }
+    n
+}
 
 fn transparent_run(out: &mut Out, run: u64, flags: SimFlags, psr: u16, plan: &[(u32, IntCmd)], kbd_plan: &[(u32, u8)], kbd_ie: bool, timer: Option<(u32, u8)>) {
     let mut m = M::new(run, flags, out);
     let prints = HANDLER_PRINTS.with(|h| h.get());
     let handler = assemble_src(if prints { INT_HANDLER_OUT } else { INT_HANDLER });
-    let prog = assemble_src(T_PROG);
+    let prog = assemble_src(if PROG_PUTS.with(|p| p.get()) { T_PROG_PUTS } else { T_PROG });
     m.load(out, &handler);
     m.load(out, &prog);
     let hv = if prints { 0x1100 } else { 0x1000 };
@@ -134,8 +167,16 @@ pub fn gen_transparent(a: &Args, out: &mut Out) {
         let mut b = 1;
         while b <= nb { plans.push((0x8002, vec![(b, IntCmd { k: 1, vect: 0x90, prio: 4 })], vec![], false, None)); b += stride; }
     }
+    // a program that calls PUTS: one interrupt at EVERY boundary of the run (inside the service routine too), both handlers
+    let nputs0 = plans.len();
+    {
+        let nbp = boundaries_of(T_PROG_PUTS);
+        assert!(nbp > 30 && nbp < 400, "PUTS program: unexpected length {nbp}");
+        for b in 1..=nbp { plans.push((0x8002, vec![(b, IntCmd { k: 1, vect: 0x90, prio: 4 })], vec![], false, None)); }
+    }
     for (idx, (psr, plan, kb, ie, timer)) in plans.into_iter().enumerate() {
-        HANDLER_PRINTS.with(|h| h.set(idx >= nplain));
+        HANDLER_PRINTS.with(|h| h.set(idx >= nplain && idx < nputs0));
+        PROG_PUTS.with(|p| p.set(idx >= nputs0));
         let mut flags = known(0, false, chance(&mut rng, 30));
         // (privilege checks off must not change how interrupts enter and leave: stack switch both ways)
         flags.ignore_privilege = chance(&mut rng, 25);
@@ -145,6 +186,7 @@ pub fn gen_transparent(a: &Args, out: &mut Out) {
         transparent_run_b(out, run, flags, psr, &plan, &kb, ie, timer); run += 1;
     }
     HANDLER_PRINTS.with(|h| h.set(false));
+    PROG_PUTS.with(|p| p.set(false));
     nplain = 0; let _ = nplain;
     set_pair_tag("none");
 }
@@ -675,6 +717,66 @@ pub fn replay_devices(a: &Args, out: &mut Out) {
 }
 
 
+/// `lc3v replay machine hist=<file>`: each line is one one-step behaviour of MC_Machine:
+/// [pc, psr, rv, rm, r6, strict, real, base, w] - the adversarial machine (every memory word holds a boundary
+/// address, initialized if base = 1; all registers (rv, rm) but R6; keyboard "AB"; MCR on) is built on a real
+/// simulator before the header is taken, the instruction word w is poked at the PC and one step is made.
+pub fn replay_machine(a: &Args, out: &mut Out) {
+    use std::sync::atomic::Ordering;
+    const PAT: [u16; 12] = [0, 12287, 12288, 12289, 65022, 65023, 65024, 65026, 65030, 65532, 65534, 65535];
+    let hist = std::fs::read_to_string(a.get_str("hist", "")).expect("hist file");
+    // the pattern is shared with the specification through the OPS file (MC_Machine asserts the same)
+    let ops: serde_json::Value = serde_json::from_str(std::fs::read_to_string(a.get_str("ops", "")).expect("ops file").lines().next().expect("ops")).expect("ops");
+    let want: Vec<u16> = ops["pattern"].as_array().unwrap().iter().map(|x| x.as_u64().unwrap() as u16).collect();
+    assert_eq!(want, PAT.to_vec(), "MC_Machine_ops.ndjson and the replay pattern disagree");
+    set_pair_tag("none");
+    crate::machine::LIGHT_HEADERS.with(|l| l.set(true));
+    crate::machine::PRE_KEYS.with(|k| *k.borrow_mut() = vec![65, 66]);
+    let mut run = a.get_u64("run0", 0);
+    for line in hist.lines() {
+        if line.trim().is_empty() { continue; }
+        let h: Vec<u64> = serde_json::from_str(line).expect("history");
+        let (pc, psr, rv, rm, r6, strict0, real, base, w) = (h[0] as u16, h[1] as u16, h[2] as u16, h[3] as u16, h[4] as u16, h[5] == 1, h[6] == 1, h[7] as u8, h[8] as u16);
+        // the behaviours come in twins that differ in strict mode only: the twin without strict mode is performed
+        // first, the strict one right after it, and the two runs form a C14 pair (TV_Pairs); the line of the
+        // strict twin itself is skipped
+        if strict0 { continue; }
+        set_pair_tag(if base == 1 && rm == 0xFFFF { "strictfull" } else { "strict" });
+        for strict in [false, true] {
+            run += 1;
+            crate::machine::PATTERN.with(|p| p.set(base));
+            let flags = SimFlags { strict, use_real_traps: real, machine_init: MachineInitStrategy::Known { value: 0 }, debug_frames: false, ignore_privilege: false };
+            let mut m = M::new_from(run, flags, out, |sim| {
+                // the PSR exactly as the model says - also words that no PSR write produces (a write through xFFFC
+                // normalizes the condition codes; an RTI restores the word it pops as it is): one unlogged RTI
+                // from a scratch frame at x2FFE, so that a return to user mode leaves x3000 as the saved stack pointer
+                sim.flags.ignore_privilege = true;
+                sim.flags.strict = false;
+                sim.reg_file[crate::machine::reg(6)] = word(0x2FFE, 0xFFFF);
+                sim.mem[0x2FFEu16] = word(pc, 0xFFFF);
+                sim.mem[0x2FFFu16] = word(psr, 0xFFFF);
+                sim.mem[0x4000u16] = word(0x8000, 0xFFFF);
+                sim.pc = 0x4000;
+                sim.step_in().expect("rti");
+                sim.flags.ignore_privilege = false;
+                sim.flags.strict = strict;
+                assert_eq!(sim.psr().get(), psr, "replay machine: the PSR of the model could not be established");
+                assert_eq!(sim.verif_saved_sp(), word(0x3000, 0xFFFF), "replay machine: saved stack pointer");
+                for r in 0..8u8 { sim.reg_file[crate::machine::reg(r)] = if r == 6 { word(r6, 0xFFFF) } else { word(rv, rm) }; }
+                sim.pc = pc;
+                sim.mcr().store(true, Ordering::Relaxed);
+                for a in 0..=u16::MAX { sim.mem[a] = word(PAT[(a as usize) % 12], if base == 1 { 0xFFFF } else { 0 }); }
+                sim.mem[pc] = word(w, 0xFFFF);
+                vec![]
+            });
+            m.step(out, false, false);
+        }
+    }
+    set_pair_tag("none");
+    crate::machine::PATTERN.with(|p| p.set(0));
+    crate::machine::PRE_KEYS.with(|k| k.borrow_mut().clear());
+}
+
 /// `lc3v replay reset hist=<file> ops=<file>`: each history of MC_Reset is performed on a new simulator
 /// (interrupt device 1 attached first, as the model's initial table says); then reset, probes through the
 /// kept configuration, a bounded run (the kept breakpoints stop it), reset again and two more steps.
@@ -723,6 +825,7 @@ pub fn replay_reset(a: &Args, out: &mut Out) {
                 }
                 "srdef" => m.srdef(out, u("addr"), Some(u("n") as usize), &[]),
                 "reset" => m.reset(out),
+                "setinit" => m.set_init(out, u("k") as usize),
                 other => panic!("unknown op {other}"),
             }
             if m.dead { break; }
